@@ -221,6 +221,8 @@ static void ep2_mul_reg_gls(ep2_t r, const ep2_t p, const bn_t k) {
 		fp2_copy_sec(r->x, q[1]->x, even);
 		fp2_copy_sec(r->y, q[1]->y, even);
 		fp2_copy_sec(r->z, q[1]->z, even);
+		/* The two candidates may be in different coordinate systems. */
+		r->coord = RLC_SEL(r->coord, q[1]->coord, even);
 
 		/* Convert r to affine coordinates. */
 		ep2_norm(r, r);
